@@ -31,9 +31,15 @@ def state_writes(evs):
 
 
 def first_arm(evs):
+    """which state the poll found the future in: the first `match self.state` edge, or `state.is_done()` / `is_waiting()`
+    answering true"""
     for e in evs:
         if e.name == 'BR' and e.data['label'] == 'fstate':
             return e.data['outcome']
+        if e.name == 'BR' and e.data['label'] == 'fs_done' and e.data['outcome'] == 'T':
+            return 'Done'
+        if e.name == 'BR' and e.data['label'] == 'fs_waiting' and e.data['outcome'] == 'T':
+            return 'Waiting'
     return None
 
 
@@ -308,7 +314,7 @@ def f5(ctx):
         n += 1
         ctx.oblige(1, sample='re-arm path [%s]' % p.signature()[:70])
         lb = labels(evs, upto=zero[0].idx)
-        if not (has(lb, 'fstate', 'Done') and has(lb, 'is_stream', 'T')):
+        if not ((has(lb, 'fstate', 'Done') or has(lb, 'fs_done', 'T')) and has(lb, 'is_stream', 'T')):
             ctx.violate(key, p, 'future reset to Zero outside the Done+is_stream arm', at=zero[0].at)
         regs = [e for e in evs if e.name == 'PUSH_RECV' and e.idx > zero[0].idx]
         if regs:
